@@ -1,6 +1,7 @@
 //! C08 — simplifying the factor set never changes the result.
 
 use crate::common::*;
+#[allow(unused_imports)]
 use cteepbd::*;
 
 pub fn units(tier: &str, _seed: u64) -> Vec<String> {
